@@ -14,7 +14,8 @@ MUST_RAISE = [
     'sul-id-61', 'sul-seq-10000', 'dtime-year-1899', 'dtime-year-2156', 'status-2', 'frame-without-channels',
     'zero-rows', 'record-length-odd', 'record-length-18', 'record-length-16386', 'int-attr-fraction', 'encrypted-2',
     'window-empty', 'window-beyond', 'slong-2^31', 'list-to-single-valued-attribute', 'sul-seq-not-positive',
-    'sul-seq-not-an-integer', 'header-seq-not-an-integer', 'header-seq-reassigned-invalid', 'origin-ref-of-no-origin', 'missing-dataset-after-earlier-write', 'partial-data-after-earlier-write',
+    'sul-seq-not-an-integer', 'header-seq-not-an-integer', 'header-seq-reassigned-invalid', 'origin-ref-of-no-origin',
+    'no-logical-file', 'status-fraction-not-float', 'missing-dataset-after-earlier-write', 'partial-data-after-earlier-write',
 ]
 FRINGE = ['empty-value-list', 'empty-text', 'empty-payload', 'single-row', 'width-1', 'origin-ref-0', 'name-255', 'ident-255',
           'text-20000', 'units-255', 'many-values-300', 'set-name-255', 'header-id-65', 'sul-id-60', 'empty-ident',
@@ -194,6 +195,15 @@ def inject(sp, c, r):
     if c in ('sul-id-61', 'sul-id-60'):
         sp['sul']['set_identifier'] = L(int(c[7:]))
         return 'sul id'
+    if c == 'no-logical-file':
+        sp['lfs'] = []
+        sp['ops'] = []
+        return 'spec'
+    if c == 'status-fraction-not-float':
+        v = r.choice([{'$np': ['float32', 0.5]}, {'$np': ['float32', 1.9]}, {'$np': ['float64', 0.25]}])
+        t, kw = r.choice([('equipment', 'status'), ('tool', 'status')])
+        add({'op': t, 'name': 'ST-INJ', 'attrs': {kw: v}})
+        return f'{t} status'
     if c == 'sul-seq-not-positive':
         sp['sul']['sequence_number'] = r.choice([0, -1, -999])
         sp['sul']['as_object'] = r.random() < 0.5
